@@ -117,4 +117,45 @@ theorem tie_newFields : newFields = ["store: store", "key: key", "id: stringx.Ra
 
 theorem tie_setExpireShape : setExpireShape = ["call uint32", "call atomic.StoreUint32"] := by decide
 
+/-! ### every call is ONE store round trip (what `Cmds.real` was written against)
+
+`effectCalls` of the extractor lists every callee of a function except conversions, formatting, logging and
+error inspection.  So these obligations say: AcquireCtx touches the shared `seconds` word once (atomic load)
+and the store once (one `ScriptRunCtx`), ReleaseCtx touches the store once (one `ScriptRunCtx`) — no GET, DEL,
+SET, pipeline or helper beside it —, the context-free wrappers only forward, and `Redis.ScriptRunCtx` is one
+`script.Run` (go-redis: EVALSHA, and EVAL only after a NOSCRIPT answer). -/
+
+theorem tie_acquireStoreCalls : acquireStoreCalls = ["atomic.LoadUint32", "rl.store.ScriptRunCtx"] := by decide
+
+theorem tie_releaseStoreCalls : releaseStoreCalls = ["rl.store.ScriptRunCtx"] := by decide
+
+theorem tie_wrapperCalls : acquireWrapperCalls = ["rl.AcquireCtx"] ∧ releaseWrapperCalls = ["rl.ReleaseCtx"] := by
+  decide
+
+theorem tie_setExpireCalls : setExpireCalls = ["atomic.StoreUint32"] := by decide
+
+theorem tie_newLockCalls : newLockCalls = ["stringx.Randn"] := by decide
+
+theorem tie_scriptRunCtx :
+    scriptRunCtxCalls = ["getRedis", "script.Run(ctx, conn, keys, args...).Result", "script.Run"] := by decide
+
+/-! ### the ids: `stringx.Randn(16)` -/
+
+/-- the alphabet has 62 different characters; an index is 6 bits of the source and is used only if it is
+`< len(letterBytes)` (rejection: every character of the alphabet is equally likely if the bits are uniform) -/
+theorem tie_idAlphabet :
+    Extracted.C19.letterBytes = "abcdefghijklmnopqrstuvwxyzABCDEFGHIJKLMNOPQRSTUVWXYZ0123456789" ∧
+    Extracted.C19.letterBytes.length = 62 ∧ Extracted.C19.letterBytes.toList.Nodup ∧
+    Extracted.C19.letterIdxBits = 6 ∧
+    letterIdxDerived = ["letterIdxMask = 1<<letterIdxBits - 1", "letterIdxMax = 63 / letterIdxBits"] := by
+  decide
+
+theorem tie_randnBody : randnBody =
+    ["b := make([]byte, n)",
+     "for i, cache, remain := n-1, src.Int63(), letterIdxMax; i >= 0;  {",
+     "if remain == 0 {", "cache, remain = src.Int63(), letterIdxMax", "}",
+     "if idx := int(cache & letterIdxMask); idx < len(letterBytes) {", "b[i] = letterBytes[idx]", "i--", "}",
+     "cache >>= letterIdxBits", "remain--", "}",
+     "return string(b)"] := by decide
+
 end GoZero.C19.Tie
